@@ -313,3 +313,85 @@ Definition port_validb (f : fault) (sendable : bool) (hs : list handler) (d : st
   | Some (st, _) => reaches st hs d || base
   | None => base
   end.
+
+(* ================= source port 0 (defect D22, repaired by 7078de3) =================
+   A datagram whose UDP source port is 0 can be received, but sendto() to port 0 fails with EINVAL
+   (and RFC 768 says that such a sender expects no reply).  The code now drops such a datagram at
+   the very start of _process_request, after a debug log statement: no reply attempt, no transfer.
+   Before the repair the normal reaction was performed, the reply could not be sent and the OSError
+   was logged by the catch-all.  [port0] = the datagram comes from source port 0; sendto fails
+   exactly then. *)
+Record pvariants := { replies_to_port0 : bool }.       (* D22: no early drop *)
+Definition pcurrent := {| replies_to_port0 := false |}.
+Definition pv_D22 := {| replies_to_port0 := true |}.
+
+(* [sendable] = false: sendto() to this requester fails with OSError for a reason that is not in the
+   datagram (EPERM / ENETUNREACH: firewall, no route); source port 0 is never sendable *)
+Definition process_request_v (pv : pvariants) (f : fault) (port0 sendable : bool) (hs : list handler) (d : str)
+  : res (list action) :=
+  if port0 && negb (replies_to_port0 pv) then bind (at_station f SLog) (fun _ => Ok [])
+  else process_request_f f (sendable && negb port0) hs d.
+
+Definition serve_one_v (pv : pvariants) (f : fault) (port0 sendable : bool) (hs : list handler) (d : str)
+  : list action :=
+  match process_request_v pv f port0 sendable hs d with Ok a => a | Exc _ done => done ++ [ALogExc] end.
+
+Fixpoint run_loop_v (pv : pvariants) (pol : policy) (hs : list handler) (reqs : list (fault * (bool * bool) * str))
+  : list (list action) :=
+  match reqs with
+  | [] => []
+  | (f, (port0, sendable), d) :: r =>
+      let d' := firstn MAX_REQUEST_PACKET_SIZE d in
+      match process_request_v pv f port0 sendable hs d' with
+      | Ok a => a :: run_loop_v pv pol hs r
+      | Exc e done =>
+          match pol e with
+          | LogContinue => (done ++ [ALogExc]) :: run_loop_v pv pol hs r
+          | LogBreak => [done ++ [ALogExc]]
+          | Escape => [done]
+          end
+      end
+  end.
+
+(* specification: nothing at all for source port 0, the specified reaction otherwise *)
+Definition port_spec_v (port0 : bool) (hs : list handler) (d : str) : list action :=
+  if port0 then [] else port_spec hs d.
+Definition reaches_v (st : station) (port0 : bool) (hs : list handler) (d : str) : bool :=
+  if port0 then station_eqb st SLog else reaches st hs d.
+(* what is observed when nothing is wrong: the reaction, plus the log record of the OSError when the one
+   reply could not be sent for a reason outside the datagram (environment fault, like the injected ones) *)
+Definition expected_obs (f : fault) (port0 sendable : bool) (hs : list handler) (d : str) : list action :=
+  let spec := port_spec_v port0 hs d in
+  match f with
+  | Some (st, _) => if reaches_v st port0 hs d then [ALogExc]
+                    else spec ++ (if negb sendable && existsb is_send spec then [ALogExc] else [])
+  | None => spec ++ (if negb sendable && existsb is_send spec then [ALogExc] else [])
+  end.
+Definition env_fault_effective (f : fault) (port0 sendable : bool) (hs : list handler) (d : str) : bool :=
+  match f with Some (st, _) => reaches_v st port0 hs d | None => false end ||
+  (negb sendable && existsb is_send (port_spec_v port0 hs d)).
+
+(* the checker of the property: exactly the specified reaction (so: no reply attempt to port 0), no
+   logged exception unless an environment fault (injected exception that is reached, reply that cannot be
+   sent for a reason outside the datagram) explains exactly it, the server keeps serving *)
+Definition port_check (f : fault) (port0 sendable : bool) (hs : list handler) (d : str) (obs : list action)
+  : list string :=
+  let spec := port_spec_v port0 hs d in
+  let seen := filter (fun a => negb (is_dead a)) obs in
+  let core := filter (fun a => negb (is_log a)) seen in
+  let dead := if existsb is_dead obs then ["C09:port_stops_serving"%string] else [] in
+  match f with
+  | Some (SLog, _) =>
+      (* WHERE a branch logs, and through which logger method, is not fixed by the property: under a fault in a
+         log statement the datagram is judged only by what the property says - the loop keeps serving, at most
+         one reaction, and if there is one it is the specified one (none is fine) *)
+      dead ++ (if (actions_eqb core [] || actions_eqb core spec) && (List.length seen <=? 3)%nat then []
+               else ["C09:port_fault_reaction"%string])
+  | _ =>
+      if env_fault_effective f port0 sendable hs d then
+        dead ++ (if actions_eqb seen (expected_obs f port0 sendable hs d) then [] else ["C09:port_fault_reaction"%string])
+      else
+        (if existsb is_log obs then ["C09:internal_error_path"%string] else []) ++ dead ++
+        (if (2 <=? List.length core)%nat then ["C09:port_more_than_one_reaction"%string] else []) ++
+        (if actions_eqb core spec then [] else ["C09:port_reaction"%string])
+  end.
